@@ -365,7 +365,7 @@ func init() {
 	core.Register(&core.Check{
 		Spec: core.Spec{
 			Prop:        "C05",
-			Rule:        "Every Supply/Drain/Transfer/New call is compared with math/big arithmetic on currency*10^18+supplementary: success iff the operation is possible, exact result, canonical sides, untouched operands on failure. Batch 0 enumerates the full product of 13 currency x 6 supplementary boundary values for amount, source and receiver (exhaustive for that grid); other batches draw PRNG operands (uniform, shifted, boundary-biased, near-equal) and 4-account transfer sequences whose total must stay constant. Ledger part: non-canonical amounts are offered to every ledger entry point and must never appear in a snapshot. Non-trivial = carry, borrow, overflow or insufficient-funds cases; distinct by (operation, outcome, carry/borrow flags, boundary class of every operand). The ledger ingress offers carry the non-canonical amounts with and without data (a contract carrying spice is a transfer), and one batch runs a ledger whose 2^63 supply hops through four wallets and is checkpointed (value neither created nor destroyed). Ledger level: wallets owning amounts on both sides of the seam between the two parts of the currency (whole units only, fractions only, fraction 10^18-1) propose one smallest unit more than they own and then exactly what they own; a confirmed overspend is value created. One batch drains a wallet to exactly zero between two truncations and probes it: a balance of zero is a balance. The exhaustive grid also runs through Drain with a non-empty sink. Wallets whose turnover passes 2^64 with transfers to self: a reported balance is the exact net flow, a refusal is allowed. The read-only operations (Empty, IsCanonical, Clone, Encode/Decode) against the exact value, also for amounts whose parts add up to 2^64; paid contracts carrying such amounts through a ledger.",
+			Rule:        "Every Supply/Drain/Transfer/New call is compared with math/big arithmetic on currency*10^18+supplementary: success iff the operation is possible, exact result, canonical sides, untouched operands on failure. Batch 0 enumerates the full product of 13 currency x 6 supplementary boundary values for amount, source and receiver (exhaustive for that grid); other batches draw PRNG operands (uniform, shifted, boundary-biased, near-equal) and 4-account transfer sequences whose total must stay constant. Ledger part: non-canonical amounts are offered to every ledger entry point and must never appear in a snapshot. Non-trivial = carry, borrow, overflow or insufficient-funds cases; distinct by (operation, outcome, carry/borrow flags, boundary class of every operand). The ledger ingress offers carry the non-canonical amounts with and without data (a contract carrying spice is a transfer), and one batch runs a ledger whose 2^63 supply hops through four wallets and is checkpointed (value neither created nor destroyed). Ledger level: wallets owning amounts on both sides of the seam between the two parts of the currency (whole units only, fractions only, fraction 10^18-1) propose one smallest unit more than they own and then exactly what they own; a confirmed overspend is value created. One batch drains a wallet to exactly zero between two truncations and probes it: a balance of zero is a balance. The exhaustive grid also runs through Drain with a non-empty sink. Wallets whose turnover passes 2^64 with transfers to self: a reported balance is the exact net flow, a refusal is allowed. The read-only operations (Empty, IsCanonical, Clone, Encode/Decode) against the exact value, also for amounts whose parts add up to 2^64; paid contracts carrying such amounts through a ledger. The interrupted-truncation scenario under the value oracle.",
 			Assumptions: []string{"operands of the arithmetic oracle are canonical (supplementary < 10^18); non-canonical operands are only judged at the ledger boundary", "math/big is the trusted reference"},
 			MinEvals:    100_000, MinNontriv: 50,
 		},
